@@ -522,3 +522,9 @@ def t_valuation_liab(world):
 
 def tasks(tier):
     return [('valuation_asset', t_valuation_asset), ('valuation_liab', t_valuation_liab), ('switchboard', t_switchboard), ('scale', t_scale), ('pyth', t_pyth), ('swb_load', t_swb_load), ('adapter', t_adapter), ('adjust', t_adjust), ('pyth_account', t_pyth_account), ('pyth_age', t_pyth_age), ('max_age', t_max_age)] + [(f'zero_price_{w}', mk_zero_price(w)) for w in WITHDRAWS if w != 'drift']
+
+
+def kani(tier):
+    if tier != 'thorough': return []
+    return [dict(harness='swb_load_checked', oid='C09.k', covers=1, stubs=5, timeout=1500, desc='SECOND ENGINE (Kani/CBMC on the compiled code, REAL byte-level parsing of a symbolic 3.2 KB account): SwitchboardPullPriceFeed::load_checked accepts => owner is the Switchboard program, discriminator matches, now - last_update <= max_age, decoded value/std_dev are the account bytes',
+                 functions=['marginfi::state::price::SwitchboardPullPriceFeed::load_checked', 'parse_swb_ignore_alignment', 'LitePullFeedAccountData::from'], bounds='account of exact PullFeedAccountData size with symbolic discriminator, timestamp, value, std_dev; all i64 clocks; max_age <= 65535; unwind 34')]
